@@ -1,17 +1,17 @@
 #!/bin/sh
-# usage: tools/seeded_eval.sh <ID> [srcdir] [extra check args]   (srcdir default /tmp/out/<ID>)
+# usage: tools/seeded_eval.sh <ID> [srcdir] [extra check args]   (srcdir default /verif/seeded/<ID>)
 # 1. confirm the change independently in a scratch worktree (baseline passes, demo fails with / passes without)
 # 2. apply it to /repo, run the check, undo it.   Prints a summary; writes nothing under /verif.
-ID="$1"; SRC="${2:-/tmp/out/$ID}"
+ID="$1"; SRC="${2:-/verif/seeded/$ID}"
 [ $# -ge 2 ] && shift 2 || shift 1
 PATCH="$SRC/patch.diff"; DEMO="$SRC/demo.py"
 W=/tmp/sw-$ID
 git -C /repo worktree remove --force $W 2>/dev/null; rm -rf $W
 git -C /repo worktree add -q --detach $W HEAD || exit 3
-echo "== clean demo"; /tmp/hpenv/hprun.py $W $DEMO >/tmp/sw-$ID.clean.log 2>&1; echo "clean demo exit=$?"
+echo "== clean demo"; /verif/tools/hprun.py $W $DEMO >/tmp/sw-$ID.clean.log 2>&1; echo "clean demo exit=$?"
 git -C $W apply "$PATCH" || { echo "PATCH DOES NOT APPLY"; git -C /repo worktree remove --force $W; exit 3; }
-echo "== baseline with change"; VERIF_REPO=$W /tmp/hpenv/baseline.py | tail -1
-echo "== changed demo"; /tmp/hpenv/hprun.py $W $DEMO >/tmp/sw-$ID.changed.log 2>&1; echo "changed demo exit=$?"; tail -2 /tmp/sw-$ID.changed.log
+echo "== baseline with change"; VERIF_REPO=$W /verif/tools/baseline.py | tail -1
+echo "== changed demo"; /verif/tools/hprun.py $W $DEMO >/tmp/sw-$ID.changed.log 2>&1; echo "changed demo exit=$?"; tail -2 /tmp/sw-$ID.changed.log
 git -C /repo worktree remove --force $W; rm -rf $W
 echo "== check on /repo with change applied"
 git -C /repo apply "$PATCH" || exit 3
